@@ -81,6 +81,9 @@ def enumerated(tier, seed):
     # (c') statistical, long stub lists: 4096 degree-1 vertices, partner label block of 64 probe vertices
     cases.append({"stat": True, "blocks": True, "algo": "fast", "M": 4096, "samples": 4 if tier == "quick" else 20,
                   "seed": seed * 1000 + 77})
+    # (c'') entropy bound: 16 degree-1 vertices need log2(16!) = 44.3 bits per generation
+    for algo in ("fast", "motifs"):
+        cases.append({"stat": True, "entropy": True, "algo": algo, "M": 16, "seed": seed * 1000 + 99})
     # (c) statistical: partner of vertex 0 among M degree-1 vertices
     for i, M in enumerate((24, 40) if tier == "quick" else (24, 30, 40, 60)):
         for algo in ("fast", "motifs"):
@@ -113,11 +116,40 @@ def outcome_count(case):
     return tot
 
 
+def expected_law(jds, full):
+    """Exact law of the ordered stub sequences filling the complete motifs, column by column independent: the first
+    full[c] entries of a uniformly random ordering of column c's stubs (all entries when the handshake condition
+    holds -- then every arrangement has the same probability).  Returns {outcome: Fraction}."""
+    cols = []
+    for c, L in enumerate(full):
+        mult = [r[c] for r in jds]
+        n = sum(mult)
+        seqs = {(): Fraction(1)}
+        for i in range(L):
+            nxt = {}
+            for seq, p in seqs.items():
+                for v, m in enumerate(mult):
+                    left = m - seq.count(v)
+                    if left > 0:
+                        nxt[seq + (v,)] = p * Fraction(left, n - i)
+            seqs = nxt
+        cols.append(seqs)
+    law = {(): Fraction(1)}
+    for seqs in cols:
+        law = {o + (seq,): p * q for o, p in law.items() for seq, q in seqs.items()}
+    return law
+
+
 def stat_check(case):
     from gcmpy import GCMAlgorithmNames as GN, GCMAlgorithmFast, GCMAlgorithmCustomMotifs, clique_motif
     M = case["M"]
     jds = [(1,)] * M
-    params = {GN.MOTIF_SIZES: [2], GN.BUILD_FUNCTIONS: [clique_motif]}
+    calls = []
+
+    def recording_clique(vs):  # the motif slot of a vertex = the build call it is handed to (not its row in the output)
+        calls.append(tuple(vs))
+        return clique_motif(vs)
+    params = {GN.MOTIF_SIZES: [2], GN.BUILD_FUNCTIONS: [recording_clique]}
     if case["algo"] == "fast":
         params[GN.EDGE_NAMES] = ["e"]
         g = GCMAlgorithmFast(params)
@@ -125,6 +157,31 @@ def stat_check(case):
         params[GN.EDGE_NAMES] = [lambda: ["e"]]
         params[GN.MOTIF_INDICES] = [[0]]
         g = GCMAlgorithmCustomMotifs(params)
+    if case.get("entropy"):
+        # Information-theoretic form of "no placement is unreachable": a run that drew b bits from the (owned, ideal)
+        # random source ends in a leaf of probability 2**-b, so the arrangement it produces has probability >= 2**-b;
+        # uniformity over the M! ordered arrangements of M degree-1 stubs needs 2**-b <= 1/M! on every run.  Decided
+        # only when the owned source demonstrably drives the outcome (same script -> same outcome, other script ->
+        # other outcome); otherwise the case is not applicable.
+        from math import factorial, log2
+        need = log2(factorial(M))
+        runs = []
+        for k in range(3):
+            for rep in range(2):
+                del calls[:]
+                with rng.scripted(tail_seed=case["seed"] * 10 + k) as info:
+                    call("generate", g.random_clustered_graph, list(jds))
+                runs.append((k, tuple(calls), info.entropy_bits))
+        same = all(runs[2 * k][1] == runs[2 * k + 1][1] for k in range(3))
+        differ = len({runs[2 * k][1] for k in range(3)}) == 3
+        if not (same and differ):
+            return {"nontrivial": False, "classes": ["entropy_not_applicable"]}
+        low = min(r[2] for r in runs)
+        if low < need - 1e-6:
+            raise Violation("entropy", f"{M} degree-1 vertices: one generation drew {low:.1f} bits from the random source, "
+                                       f"but making all {M}! stub arrangements equally likely needs {need:.1f} bits per run: "
+                                       f"most placements are unreachable")
+        return {"nontrivial": True, "classes": ["statistical", "entropy_bound"], "notes": {"bits_drawn": low, "bits_needed": need}}
     if case.get("blocks"):
         nb = 8
         size = M // nb
@@ -133,6 +190,7 @@ def stat_check(case):
         exp = [0.0] * nb
         with rng.seeded(case["seed"]):
             for _ in range(case["samples"]):
+                del calls[:]
                 el = call("generate", g.random_clustered_graph, list(jds)).edge_list
                 partner = {}
                 for a, b in el:
@@ -153,10 +211,13 @@ def stat_check(case):
     slot = [0] * (M // 2)
     with rng.seeded(case["seed"]):
         for _ in range(case["samples"]):
+            del calls[:]
             el = call("generate", g.random_clustered_graph, list(jds)).edge_list
-            for i, (a, b) in enumerate(el):
+            for a, b in el:
                 if a == 0 or b == 0:
                     counts[a + b] += 1
+            for i, vs in enumerate(calls):
+                if 0 in vs and i < len(slot):
                     slot[i] += 1
     obs = counts[1:]
     exp = [case["samples"] / (M - 1)] * (M - 1)
@@ -186,23 +247,36 @@ def check(case):
             colpos[(j, c)] = (off, off + s)
             off += s
 
+    sizes_tot = [sum(mo["orbit_sizes"]) for mo in case["motifs"]]
+    orbit_of_col = {}
+    for j, mo in enumerate(case["motifs"]):
+        for c, s in zip(mo["cols"], mo["orbit_sizes"]):
+            orbit_of_col[c] = s
+    # number of stubs of column c that fit into complete motifs (all of them when the handshake condition holds)
+    full = [(sum(r[c] for r in jds) // orbit_of_col[c]) * orbit_of_col[c] if c in orbit_of_col else 0 for c in range(nc)]
+
     def outcome():
         del journal[:]
         call("generate", g.random_clustered_graph, list(jds))
         seqs = [[] for _ in range(nc)]
         for j, vs, _ in journal:
+            if len(vs) != sizes_tot[j]:
+                continue  # a truncated last group (stub count not a multiple of the motif size) is not a motif
             for c in case["motifs"][j]["cols"]:
                 a, b = colpos[(j, c)]
                 seqs[c].extend(vs[a:b])
         return tuple(tuple(s) for s in seqs)
 
-    want_n = outcome_count(case)
+    law = expected_law(jds, full)
+    want_n = len(law)
     classes = set(G.classes_of(case)) - {"scripted_rng", "path_class", "path_factory", "path_main_enum", "path_main_str"}
+    if any(f != sum(r[c] for r in jds) for c, f in enumerate(full) if c in orbit_of_col):
+        classes.add("leftover_stubs")
     try:
         dist, leaves = rng.enumerate_outcomes(outcome, max_leaves=cap * 2)
     except (rng.Uncontrolled, OverflowError):
         # RNG source not enumerable any more (float source, or far more integer draws than one shuffle per column
-        # needs): seeded sampling + chi-square against the same uniform law
+        # needs): seeded sampling + chi-square against the same law
         classes.add("fallback_sampling")
         if want_n > 2000:
             return {"nontrivial": False, "classes": sorted(classes)}
@@ -212,29 +286,27 @@ def check(case):
             for _ in range(n):
                 o = outcome()
                 cnt[o] = cnt.get(o, 0) + 1
-        obs = list(cnt.values()) + [0] * max(0, want_n - len(cnt))
-        if len(cnt) > want_n:
-            raise Violation("impossible-outcome", f"{len(cnt)} distinct stub sequences observed, only {want_n} exist")
-        s, df, p = stats.chi2_test(obs, [n / want_n] * len(obs))
+        bad = [o for o in cnt if o not in law]
+        if bad:
+            raise Violation("not-a-stub-arrangement", f"callbacks received {bad[0]} for jds={case['jds']}")
+        keys = sorted(law)
+        s, df, p = stats.chi2_test([cnt.get(o, 0) for o in keys], [n * float(law[o]) for o in keys])
         if p < stats.ALPHA:
-            raise Violation("stat-nonuniform", f"sampled placements not uniform: chi2={s:.1f} df={df} p={p:.3g}")
+            raise Violation("stat-nonuniform", f"sampled placements do not follow the uniform-matching law: chi2={s:.1f} df={df} p={p:.3g}")
         return {"nontrivial": want_n >= 2, "classes": sorted(classes)}
-    # every outcome must be a valid arrangement of the column's stubs (C01's business, but needed for the count)
+    # every outcome must be an arrangement of the column's stubs into its complete motifs
     for o in dist:
-        for c, seq in enumerate(o):
-            if sorted(seq) != sorted(v for v in range(len(jds)) for _ in range(jds[v][c])):
-                raise Violation("not-a-stub-arrangement", f"column {c}: callbacks received {seq}")
+        if o not in law:
+            raise Violation("not-a-stub-arrangement", f"callbacks received {o}; jds={case['jds']} sizes={G.motif_sizes(case)}")
     if len(dist) != want_n:
         missing = want_n - len(dist)
         raise Violation("unreachable-placement", f"{len(dist)} of the {want_n} stub-to-slot assignments are reachable "
                                                  f"({missing} unreachable); jds={case['jds']} sizes={G.motif_sizes(case)}")
-    p0 = Fraction(1, want_n)
-    bad = [(o, p) for o, p in dist.items() if p != p0]
+    bad = [(o, p, law[o]) for o, p in dist.items() if p != law[o]]
     if bad:
-        o, p = min(bad, key=lambda t: t[1])
-        o2, p2 = max(bad, key=lambda t: t[1])
-        raise Violation("non-uniform", f"placements are not equally likely: {o} has probability {p}, {o2} has {p2}, "
-                                       f"uniform would be {p0}; jds={case['jds']}")
+        o, p, w = max(bad, key=lambda t: abs(t[1] - t[2]))
+        raise Violation("non-uniform", f"placements are not equally likely: {o} has probability {p}, uniform stub "
+                                       f"matching gives {w}; jds={case['jds']}")
     if case.get("matchings"):
         m = {}
         for o, p in dist.items():
